@@ -626,7 +626,9 @@ OBJ_POOL = [{"a": 1, "b": 2, "s": "ab"}, {"a": 0, "b": 0, "s": ""}, {"a": -1, "b
             {"a": 2, "b": 2, "s": "a\nb"}]
 EXC_POOL = [["ValueError", ["x"]], ["ValueError", ["\xe9"]], ["ValueError", []], ["KeyError", ["k"]],
             ["RuntimeError", []], ["MyErr", ["a", "b"]], ["MyErr", ["x"]], ["KeyboardInterrupt", ["kb"]],
-            ["AbcChild", ["x"]]]
+            ["AbcChild", ["x"]],
+            # different arguments, the same text: 1 / "1", no argument / an empty one
+            ["ValueError", [1]], ["ValueError", ["1"]], ["ValueError", [""]]]
 CALL_POOL = [{"ret": 1}, {"ret": None}, {"raise": ["ValueError", ["x"]]}, {"raise": ["KeyError", ["k"]]},
              {"raise": ["MyErr", ["a", "b"]]}, {"raise": ["RuntimeError", []]}, {"raise": ["AbcChild", ["x"]]}]
 CALL_BASE_POOL = [{"raise": ["KeyboardInterrupt", ["kb"]]}, {"raise": ["SystemExit", [3]]},
@@ -728,6 +730,8 @@ def leaves(domain, rng=None):
               ["MatchesException", ["types", ["KeyError", "RuntimeError"]]],
               ["MatchesException", ["instance", "ValueError", ["x"]]],
               ["MatchesException", ["instance", "MyErr", ["a", "b"]]],
+              ["MatchesException", ["instance", "ValueError", [1]]], ["MatchesException", ["instance", "ValueError", ["1"]]],
+              ["MatchesException", ["instance", "ValueError", []]], ["MatchesException", ["instance", "ValueError", [""]]],
               ["MatchesException", ["type_re", "ValueError", "x"]],
               ["MatchesException", ["type_re", "LookupError", ".k"]],
               ["MatchesException", ["type", "KeyboardInterrupt"]], ["MatchesPredicate", "value_error"],
